@@ -230,6 +230,29 @@ def check(ctx, s, opts, drv, pending):
         return
     if any(len(elem_den(d, i)) >= 2 for i in range(size)):
         ctx.nontrivial_add((ctx.evaluations,))
+    if s["dtype"] in ("float64", "float32", "float16", "int64", "int32", "int16", "int8", "uint8", "uint16", "uint64"):
+        # the contract of the proved reader (text_reads_tokens_codec: Codec.Lawful) on the coefficient texts `_to_string` really
+        # writes: an optional '-' followed by a non-empty text without '+', '-', '*' that does not start with 'q', which reads
+        # back as the coefficient. Integers always meet it (int_codec_lawful); floats do in positional notation.
+        for coef in p.coefficients:
+            for v in numpy.asarray(coef).ravel():
+                if not v:
+                    continue
+                text = str(v)
+                body = text[1:] if text.startswith("-") else text
+                ok = bool(body) and body[0] != "q" and not any(ch in "+-*" for ch in body)
+                kind = "float" if s["dtype"].startswith("float") else "int"
+                if ok:
+                    ctx.count(f"codec-contract.{kind}.holds")
+                    back = float(text) if kind == "float" else int(text)
+                    if back != v:
+                        ctx.fail(case, f"coefficient text {text!r} does not read back as the coefficient {v!r}", tags + ["codec"])
+                        return
+                elif kind == "int":
+                    ctx.fail(case, f"integer coefficient text {text!r} is not an optional minus followed by digits", tags + ["codec"])
+                    return
+                else:
+                    ctx.count("codec-contract.float.exponent-notation (outside the proved reader)")
     if not (rp.startswith("polynomial(") and rp.endswith(")")):
         ctx.fail(case, f"repr is not polynomial(...): {rp[:80]!r}", tags + ["repr"])
         return
